@@ -9,6 +9,7 @@ import (
 	"net/http"
 	"net/http/httputil"
 	"net/url"
+	"strings"
 	"time"
 
 	"github.com/AdguardTeam/AdGuardDNS/internal/agdtest"
@@ -28,14 +29,25 @@ func (rt *verifRT) RoundTrip(r *http.Request) (*http.Response, error) {
 
 // verifRPServeHTTP stands in for ReverseProxy.ServeHTTP in the symbolic build: it
 // applies the proxy's Rewrite hook to a copy of the inbound request and hands the
-// result to the transport (the documented behaviour of ReverseProxy with Rewrite set,
-// minus hop-by-hop header handling).
+// result to the transport (the documented behaviour of ReverseProxy with Rewrite set:
+// hop-by-hop headers, i.e. those named in Connection and the standard set, are
+// removed from the outgoing copy before Rewrite runs).
 func verifRPServeHTTP(p *httputil.ReverseProxy, w http.ResponseWriter, r *http.Request) {
 	out := new(http.Request)
 	*out = *r
 	u := *r.URL
 	out.URL = &u
 	out.Header = r.Header.Clone()
+	for _, f := range out.Header["Connection"] {
+		for _, sf := range strings.Split(f, ",") {
+			if sf = strings.TrimSpace(sf); sf != "" {
+				out.Header.Del(sf)
+			}
+		}
+	}
+	for _, f := range []string{"Connection", "Proxy-Connection", "Keep-Alive", "Proxy-Authenticate", "Proxy-Authorization", "Te", "Trailer", "Transfer-Encoding", "Upgrade"} {
+		out.Header.Del(f)
+	}
 	p.Rewrite(&httputil.ProxyRequest{In: r, Out: out})
 	_, _ = p.Transport.RoundTrip(out)
 }
@@ -71,8 +83,8 @@ func verifHdrVal() string {
 // X-Connecting-Ip value and none of the client-supplied client-IP headers; requests
 // that are not proxied never reach the backend.
 //
-//verif:harness name=H19b-headers tier=quick,thorough bounds="method GET/POST/DELETE, 6 concrete paths (4 documented shapes, robots.txt, other), each forged header present or absent with a symbolic value, peer address d.d.d.d:port with symbolic digits" reach=proxied,not-found,robots maxpaths=20000
-//verif:assume ReverseProxy.ServeHTTP is replaced by its documented Rewrite-then-RoundTrip behaviour in the symbolic build (net/http internals, hop-by-hop and X-Forwarded-* handling outside the claim); request IDs not generated
+//verif:harness name=H19b-headers tier=quick,thorough bounds="method GET/POST/DELETE, 6 concrete paths (4 documented shapes, robots.txt, other), each forged header present or absent with a symbolic value, Connection header absent or naming X-Connecting-Ip / X-Real-Ip as hop-by-hop, peer address d.d.d.d:port with symbolic digits" reach=proxied,not-found,robots maxpaths=20000
+//verif:assume ReverseProxy.ServeHTTP is replaced by its documented Rewrite-then-RoundTrip behaviour in the symbolic build incl. hop-by-hop header removal (other net/http internals and X-Forwarded-* handling outside the claim); request IDs not generated
 func VerifC19Headers() {
 	api, _ := url.Parse("https://backend.example/api")
 	h := linkedIPHandler(api, agdtest.NewErrorCollector(), "n", time.Second).(*linkedIPProxy)
@@ -87,6 +99,15 @@ func VerifC19Headers() {
 		if verifChoice(2) == 1 {
 			hdr[name] = []string{verifHdrVal()}
 		}
+	}
+	// the client may declare any header hop-by-hop
+	switch verifChoice(4) {
+	case 1:
+		hdr["Connection"] = []string{"X-Connecting-Ip"}
+	case 2:
+		hdr["Connection"] = []string{"keep-alive, x-connecting-ip"}
+	case 3:
+		hdr["Connection"] = []string{"close", "X-Real-Ip"}
 	}
 	ip := verifIPText()
 	r := &http.Request{
